@@ -710,6 +710,8 @@ def check_C13(ctx):
                 "len / contains / iter / get.  spec/HpoSetMachine.tla models ONE HpoSet object living through a history of in-place (remove_modifier, remove_obsolete, "
                 "replace_obsolete, extend) and copying operations: TLC explores every history of <= 2 (3 thorough) operations from every initial subset of four worlds and emits the "
                 "observation (members, gene/OMIM/ORPHA unions, IC arguments, category counts) required after every step; the harness replays them on one mutable object; "
+                "spec/HpoOntMachine.tla does the same for the ONTOLOGY whose modifier / category roots change after build_minimal (set_default_modifier, set_default_categories, modifier_mut / categories_mut "
+                "insertions, clearing): every history of 3 operations, is_modifier / categories of every term and without_modifier / remove_modifier / categories of every subset after every step; "
                 "non-trivial = at least one edge and one fact / every metadata case / a history that changes the members")
     allout = extras_lines(ctx, big=False)
     s = hv(ctx, "replay-sim", prop="C13", **{"in": allout})
@@ -728,9 +730,20 @@ def check_C13(ctx):
     with ThreadPoolExecutor(max_workers=4) as ex:
         mouts = list(ex.map(one, (1, 2, 3, 4)))
     mo = concat(ctx, mouts, "c13-machine-lines.txt")
-    ms = hv(ctx, "replay-setmachine", prop="C13", **{"in": mo}, worlds=mo)
+    wf = os.path.join(ctx.scratch, "c13-worlds.txt")       # the few world lines, read by every shard
+    with open(mo, errors="replace") as fh, open(wf, "w") as w:
+        for line in fh:
+            if '\\"world\\"' in line:
+                w.write(line)
+    ms = hv(ctx, "replay-setmachine", prop="C13", **{"in": mo}, worlds=wf)
     ctx.traces += ms.get("cases", 0)
     ctx.extra["set_object_histories"] = ms.get("cases", 0)
+    # the ONTOLOGY as an object: its modifier / category roots change (set_default_*, *_mut) between set operations; every history of
+    # 3 operations after build_minimal, all terms and all 256 subsets observed after every step (spec/HpoOntMachine.tla)
+    oo = tlc(ctx, cfgfile(ctx, "MC_OntMachine", "mc/MC_OntMachine.tla", open(os.path.join(SPEC, "mc", "MC_OntMachine.cfg")).read().replace("MaxOps = 2", "MaxOps = 3")), "mc/MC_OntMachine.tla", workers=6, timeout=3000)["out"]
+    os_ = hv(ctx, "replay-ontmachine", prop="C13", **{"in": oo})
+    ctx.traces += os_.get("cases", 0)
+    ctx.extra["ontology_object_histories"] = os_.get("cases", 0)
     ctx.assumptions += ["a replacement id that does not resolve in the ontology cannot be iterated (documented panic); it is compared through contains() only and excluded from the object histories"]
     return finish(ctx)
 
@@ -772,13 +785,20 @@ def check_C20(ctx):
                 "(value or error; byte offset 3 inside a character is an error, never a panic) and checks ParseChar and the inverse laws on border ids; MC_TermIdT adds template texts: the prefix plus 1..10 digits (three digit patterns) "
                 "in which one position of the tail or the prefix is replaced by each printable ASCII character, tab, newline, NUL, DEL and six multi-byte characters incl. non-ASCII decimal digits; the harness replays "
                 "HpoTermId::try_from under catch_unwind, compares Display / to_be_bytes / from([u8;4]) / from_u32, adds the cases beyond TLC's 32-bit integers "
-                "(4294967295, 4294967296, 200-digit and 300-character inputs) and sweeps the inverse laws over every id 0..10^7+16 and the top of u32; "
+                "(4294967295, 4294967296, 200-digit and 300-character inputs, digit strings congruent to small numbers modulo 2^32 / 2^64 / 2^128 / 2^256), call sequences over related texts (MC_TermIdSeq: the result never depends on earlier calls) and sweeps the inverse laws over every id 0..10^7+16 and the top of u32; "
                 "non-trivial = parses, or contains a multi-byte character")
     outs = [tlc(ctx, "mc/MC_TermId.cfg" if ctx.quick else "mc/MC_TermId6.cfg", "mc/MC_TermId.tla", workers=8, timeout=1800)["out"]]
     # "digits at every position": prefix + 1..10 digits with one position replaced by every printable ASCII / multi-byte character
     outs.append(tlc(ctx, "mc/MC_TermIdT.cfg", "mc/MC_TermIdT.tla", workers=4, timeout=1800)["out"])
+    # parsing is a function of the text: every call sequence of length 2 (3 thorough) over related texts (a number with 7..10 digits and the
+    # text made of its first seven digits), replayed on one thread
+    outs.append(tlc(ctx, cfgfile(ctx, "MC_TermIdSeq", "mc/MC_TermIdSeq.tla", open(os.path.join(SPEC, "mc", "MC_TermIdSeq.cfg")).read().replace("SeqLen = 2", "SeqLen = %d" % (2 if ctx.quick else 3))),
+                    "mc/MC_TermIdSeq.tla", workers=4, timeout=1800)["out"])
     out = concat(ctx, outs, "c20-lines.txt")
     s = hv(ctx, "replay-termid", prop="C20", **{"in": out})
+    # the call sequences once more in ONE process in TLC's order (the shards above interleave them with all other texts)
+    s2 = hv(ctx, "replay-termid", prop="C20", **{"in": outs[-1]}, procs=1)
+    ctx.traces += s2.get("cases", 0)
     ctx.traces += s.get("cases", 0)
     ctx.extra["ids_swept"] = s.get("counters", {}).get("ids_swept", 0)
     ctx.assumptions += ["a leading '+' (accepted by Rust's integer parser) is outside the generator; the three-byte prefix is not inspected, as the property states"]
@@ -811,9 +831,15 @@ def check_C18(ctx):
     ctx.rule = ("spec/HpoCompare.tla defines Ontology::compare as set differences of two abstract ontologies (added/removed by id; changed = same id and name, direct parents, obsolete flag or "
                 "effective replacement differ; records: name or direct term set) and TLC checks CompareLaws (self-compare empty, swap symmetry) on every ordered pair of a pool of generated "
                 "ontologies (72 quick / 288 thorough: extra terms, four edge patterns incl. two with equally many but different parents, obsolete/replacement variants, gene/disease selections, name shapes) and emits both sides as v3 bytes with the "
-                "expected report; the harness loads both, calls compare and checks every list and delta exactly, plus the laws on the real code: compare(l,l) and compare(l, roundtrip(l)) empty "
+                "expected report.  spec/mc/MC_CompareEdits.tla is an EDIT-SCRIPT machine: from a base ontology (a parentless non-root term listed after terms with parents, a multi-parent term, records with several / one / no "
+                "terms, equal ids across kinds) every action applies one edit (rename, add / remove parent, flip obsolete, set replacement, add / remove term, annotate / unannotate, rename / add / remove record); every state "
+                "within 2 (3) edits is compared with the base; invariants NothingIffEqual, SingleEditVisible.  The pool also holds ontologies with 300-byte disease names (round trip must stay silent).  The harness loads both, calls compare and checks every list and delta exactly, plus the laws on the real code: compare(l,l) and compare(l, roundtrip(l)) empty "
                 "in both directions, swapping swaps added/removed; non-trivial = the two sides differ")
     co = tlc(ctx, "mc/MC_CompareQuick.cfg" if ctx.quick else "mc/MC_Compare.cfg", "mc/MC_Compare.tla", workers=14, timeout=1800)["out"]
+    # edit scripts: the base ontology against every ontology reachable by <= 2 (3) single edits of every kind (MC_CompareEdits)
+    eo = tlc(ctx, cfgfile(ctx, "MC_CompareEdits", "mc/MC_CompareEdits.tla", open(os.path.join(SPEC, "mc", "MC_CompareEdits.cfg")).read().replace("MaxEdits = 2", "MaxEdits = %d" % (2 if ctx.quick else 3))),
+             "mc/MC_CompareEdits.tla", workers=14, timeout=3000)["out"]
+    co = concat(ctx, [co, eo], "c18-lines.txt")
     s = hv(ctx, "replay-compare", prop="C18", **{"in": co})
     ctx.traces += s.get("cases", 0)
     return finish(ctx)
@@ -862,11 +888,13 @@ def check_C14(ctx):
                 "record kept iff directly annotated to a retained non-modifier term, then restricted to the retained direct terms; closure/inheritance/IC via ProjPure) and TLC checks SubSane for every "
                 "allowed result (root and leaves retained, only terms on shortest chains, original leaf-root distance, acyclic) on every acyclic relation over {1,2,3,118} (thorough: + every relation over "
                 "{1,118,2,3,4} compatible with that order), with and without the documented defaults, every root, every non-empty leaf set, with one gene per term, diseases on several terms and a "
-                "record without terms; it emits the reply and the SET of allowed results.  The harness builds the source through the Builder (3 id layouts) and through a binary file with obsolete/"
-                "replacement flags, calls sub_ontology (leaves as given; reversed + duplicated) and requires the error, or one of the allowed results compared through the whole read API (names, flags, "
+                "record without terms, and on a WIDE 64-term source with calls that retain more than 30 phenotype terms (a gene with 45 direct terms, genes on neighbouring leaves); it emits the reply and the SET of allowed results.  The harness builds the source through the Builder (3 id layouts) and through a binary file with obsolete/"
+                "replacement flags, calls sub_ontology (leaves as given; reversed + duplicated; one layout with term / record names of more than 255 bytes) and requires the error, or one of the allowed results compared through the whole read API (names, flags, "
                 "links, closure, records, inherited links, IC) and equal leaf-root distances.  impl->spec: random runs (6-16 and 52-70 terms; targeted multi-parent, modifier-root and "
                 "modifier-descendant leaves) are validated by TraceCore focus C14; non-trivial = an accepted call retaining >= 2 terms")
     outs = [tlc(ctx, "mc/MC_Sub.cfg", "mc/MC_Sub.tla", workers=14, timeout=3000)["out"]]
+    # beyond the inline capacity (30) of the crate's id groups: a wide source (64 terms), calls retaining > 30 phenotype terms, a gene with 45 direct terms
+    outs.append(tlc(ctx, "mc/MC_SubWide.cfg", "mc/MC_SubWide.tla", workers=6, timeout=3000)["out"])
     if not ctx.quick:
         outs.append(tlc(ctx, "mc/MC_Sub5.cfg", "mc/MC_Sub.tla", workers=14, timeout=6000)["out"])
     s = hv(ctx, "replay-sub", prop="C14", **{"in": concat(ctx, outs, "c14-lines.txt")})
